@@ -74,6 +74,16 @@ Qed.
 (* column statistics and covariance of the model are the textbook statistics (complete data) *)
 Theorem C11_column_variance (c : seq R) : cleanv c -> col_var c = (\sum_(x <- c) (x - col_mean c) ^+ 2) / ((size c).-1)%:R.
 Proof. exact: col_var_clean. Qed.
+Theorem C11_column_mean (c : seq R) : cleanv c -> col_mean c = (\sum_(x <- c) x) / (size c)%:R.
+Proof. exact: col_mean_clean. Qed.
+Theorem C11_column_average (c : seq R) : cleanv c -> ~~ float_eq (\sum_(x <- c) x) 0 (klit lit_1em6) ->
+  col_average c = (\sum_(x <- c) x) / (size c)%:R.
+Proof. exact: col_average_clean. Qed.
+Theorem C11_column_rms (c : seq R) : cleanv c -> col_rms c = Num.sqrt ((\sum_(x <- c) x ^+ 2) / (size c)%:R).
+Proof. exact: col_rms_clean. Qed.
+Theorem C11_row_average (M : seq (seq R)) i : cleanm M -> (i < size M)%N ->
+  (mat_row_average M)`_i = (\sum_(x <- nth [::] M i) x) / (size (nth [::] M i))%:R.
+Proof. by move=> cM li; rewrite /mat_row_average (nth_map [::]) // col_mean_clean //; apply: (allP cM); apply: mem_nth. Qed.
 Theorem C11_covariance_entry (M : seq (seq R)) i j : (i < ncols M)%N -> (j < ncols M)%N ->
   (nth [::] (covariance M) i)`_j = (\sum_(k < size M) (dev M i)`_k * (dev M j)`_k) / ((size M).-1)%:R.
 Proof. exact: cov_entry. Qed.
@@ -117,6 +127,10 @@ Print Assumptions C11_sort_perm.
 Print Assumptions C11_sort_sorted.
 Print Assumptions C11_rsort_perm.
 Print Assumptions C11_column_variance.
+Print Assumptions C11_column_mean.
+Print Assumptions C11_column_average.
+Print Assumptions C11_column_rms.
+Print Assumptions C11_row_average.
 Print Assumptions C11_covariance_entry.
 Print Assumptions C11_covariance_symmetric.
 Print Assumptions C11_covariance_cauchy_schwarz.
